@@ -71,7 +71,7 @@ var Props = map[string]*PropCfg{
 		Assume:    codecAssume, RealStub: stdRealStub(),
 	},
 	"C06": {
-		ID: "C06", Level: "fault_enumeration",
+		ID: "C06", Level: "fault_enumeration", Evolve: true,
 		Rule: "per sampled (program, value): EVERY cut point 0<=k<len of the reference encoding (all of them up to 4096 bytes; structural boundaries +-1 and 64 samples beyond) x {UnmarshalBebop on an exact-capacity guard-paged slice, DecodeBebop all-at-once + EOF, DecodeBebop under a drawn chunk schedule and reader kind + EOF/ErrUnexpectedEOF, MakeFromBytes every 7th}; oracle: non-nil error, no panic, allocation and step budgets relative to the full valid length; " +
 			"distinct_nontrivial counts distinct (record shape, element kind the cut landed on, decoder variant) triples",
 		RandProgs: map[string]int{"quick": 14, "thorough": 60},
